@@ -95,11 +95,15 @@ class Case:
         if sp.get("view"):
             # the given tensor is a row of a larger one (parameters of several units kept in one block, one unit re-initialised):
             # "in place" means the values are written into the storage the tensor has, so the block sees them
-            base = T()(env.const(np.zeros((2,) + shape), dt), requires_grad=False)
+            base = T()(env.const(np.full((2,) + shape, 7.0), dt), requires_grad=False)
             t = base[1]
             shared = bool(np.shares_memory(np.asarray(base.data), np.asarray(t.data)))
+        elif sp.get("layout"):
+            # the given tensor's data is a non-contiguous view (a transposed weight, a column block): it is filled all the same
+            from ..harness import relayout
+            t = T()(relayout(env.const(np.full(shape, 7.0), dt), sp["layout"]), requires_grad=req)
         else:
-            t = T()(env.const(np.zeros(shape), dt), requires_grad=req)
+            t = T()(env.const(np.full(shape, 7.0), dt), requires_grad=req)     # (not 0: zeros_ must be seen to write)
         before = (tuple(t.shape), str(t.dtype), t.requires_grad)
         kind = None
         # arguments handed over as NumPy float64 scalars (np.sqrt(2), np.float64(0.02)) instead of Python floats: NumPy promotes
@@ -173,7 +177,7 @@ class Case:
         out.fact("returns the very tensor it was given", r is t)
         if base is not None and shared:
             out.pair("a tensor sharing the given tensor's storage sees the new values (filled in place)", base.data[1], t.data)
-            out.pair("the rest of the shared storage is untouched", base.data[0], _full(shape, 0.0, env))
+            out.pair("the rest of the shared storage is untouched", base.data[0], _full(shape, 7.0, env))
         out.fact("shape, dtype and requires_grad unchanged", (tuple(t.shape), str(t.dtype), t.requires_grad) == before,
                  "before %s after %s" % (before, (tuple(t.shape), str(t.dtype), t.requires_grad)))
         if kind == "u":
@@ -256,6 +260,10 @@ def enumerate_specs(tier):
         specs.append({"fn": fn, "shape": [3], "dtype": "float32", "req": False, "view": True})
     for fn in ("xavier_uniform_", "kaiming_normal_"):
         specs.append({"fn": fn, "shape": [2, 2], "defaults": True, "view": True})
+    for k, fn in enumerate(("uniform_", "normal_", "constant_", "ones_", "zeros_")):
+        specs.append({"fn": fn, "shape": [2, 3], "dtype": "float32", "req": True, "layout": "TS"[k % 2]})
+    for k, fn in enumerate(("xavier_uniform_", "xavier_normal_", "kaiming_uniform_", "kaiming_normal_")):
+        specs.append({"fn": fn, "shape": [2, 3], "defaults": True, "layout": "ST"[k % 2]})
     for dt in ("float32", "float64"):
         for c in (0.1, 1.0 / 3):
             specs.append({"fn": "constant_", "shape": [2], "dtype": dt, "req": dt == "float32", "const": c})
